@@ -555,7 +555,7 @@ def api(g, cx, op, st):
             if toks:
                 val = toks[op["li"] % len(toks)]
         cx.call("line.set(%r,%r)" % (fn, val), l.set, fn, val)
-        segn = g.segment_names
+        segn = [x for x in g.segment_names if isinstance(x, str)]
         if op["li"] % 2 == 0 and segn:
             o = cx.call("gfa.rm(segment) after edit", g.rm, segn[op["li"] % len(segn)])
         else:
